@@ -9,3 +9,8 @@ func VerifCheckInputBytes(maxEventSize int, cutOff bool, data []byte) (out []byt
 	p := verifShell(&Settings{MaxEventSize: maxEventSize, CutOffEventByLimit: cutOff})
 	return p.checkInputBytes(data, "src", nil)
 }
+
+// VerifNewEvent builds a regular event with the given source, offset, sequence id and stream name.
+func VerifNewEvent(src SourceID, off int64, seq uint64, stream string) *Event {
+	return &Event{SourceID: src, Offset: off, SeqID: seq, streamName: StreamName(stream), SourceName: "f"}
+}
